@@ -32,13 +32,13 @@ META["C11"] = {
 
 META["C01"] = {
     "budget": {"quick": 25, "thorough": 600},
-    "rule": "one run = generated schema (Require/Add/Remove/After, Auto, Multi) + handler plan (vetoes, handler-issued mutations, handlers that park) + 1..3 mutator tasks + 1..2 reader tasks under the seeded scheduler; a reader step reads Is/Not/Any, ActiveStates, Tick, Time, Clock, String, StringAll and Export atomically; non-trivial = at least one context switch; distinct = distinct event-log hashes",
+    "rule": "one run = generated schema (Require/Add/Remove/After, Auto, Multi) + handler plan (vetoes, handler-issued mutations, handlers that park) + 1..3 mutator tasks + 1..2 reader tasks under the seeded scheduler; a reader step either reads Is/Not/Any, ActiveStates, Tick, Time, Clock, String, StringAll and Export atomically and cross-checks them, or calls String()/StringAll() with a scheduling point at every read-lock acquisition the getter makes (the reader holds no lock there) and checks the one answer for internal consistency; non-trivial = at least one context switch; distinct = distinct event-log hashes",
     "components": {"real": MACHINE_REAL, "stub": []},
     "assumptions": [
-        "readers are scheduled only at scheduling points: torn reads inside critical sections are C12's (race detector) business",
+        "readers are preempted at scheduling points only: between API calls, at the hook points, and - for String/StringAll - before each acquisition of the active-states lock; torn reads inside one critical section are C12's (race detector) business",
         "no handler faults in this family (they belong to C08)",
     ],
-    "probes": ["multi+2", "partial-auto", "reader-inside-final-handler", "reader-inside-transition"],
+    "probes": ["multi+2", "partial-auto", "reader-inside-final-handler", "reader-inside-transition", "getter-with-scheduling-points"],
     "level_text": "seeded search over schemas, histories and reader/mutator interleavings; every reader step cross-checks all views, a per-state ledger checks monotonicity over everything observed, every transition is checked against the documented tick step",
     "level_note": "trusts testing/synctest and the recording tracer; preemption only at scheduling points",
 }
@@ -88,7 +88,7 @@ META["C05"] = {
     "components": {"real": MACHINE_REAL, "stub": []},
     "assumptions": [
         "an After/Require demand that is part of a cycle in After ∪ Require is unsatisfiable and never flagged",
-        "partially accepted auto mutations are exempt from the veto-stops clause (C07 owns them)",
+        "partially accepted auto mutations are exempt from the veto-stops clause (C07 owns them)", "in a third of the multi-binding runs one binding is detached from inside a handler of another one, mid-transition; the detached binding is exempt from then on, the others are checked as before",
     ],
     "probes": [],
     "level_text": "seeded search over schemas, bindings, histories and veto positions; checks phase order Exit/Enter/self+state-state/[AnyEnter]/End/State/AnyState, negotiation handlers see the state before, final handlers the applied target, the first false is the last call and nothing is applied, finals exactly once per changed state per binding, After/Require order inside each phase list",
@@ -104,7 +104,7 @@ META["C07"] = {
         "an auto mutation canceled by a handler that is not one of the called Auto states' own is outside the clause (ordinary veto semantics)",
     ],
     "probes": ["auto-state-rejected-by-own-handler", "health-mutation-changed-time", "no-op-mutation"],
-    "level_text": "seeded search over schemas, histories and veto assignments; checks that the very next transition after an accepted, state-changing, non-health mutation is the auto mutation calling exactly the inactive unblocked Auto states, that none follows otherwise, and that inside it every called state is judged alone",
+    "level_text": "seeded search over schemas, histories and veto assignments; checks that the very next transition after an accepted, state-changing, non-health mutation is the auto mutation calling exactly the inactive unblocked Auto states, that none follows otherwise, that inside it every called state is judged alone, and that a called state which becomes active (and which no relation can have kept out of the target meanwhile) had every bound state-state handler of its own asked",
     "level_note": "trusts the recording tracer and handlers",
 }
 
@@ -140,7 +140,7 @@ META["C13"] = {
     "components": {"real": MACHINE_REAL, "stub": []},
     "assumptions": [
         "the locked, sleeping region of doDispose is executed atomically (Hold bracket): other goroutines start their calls after it, which is the set of outcomes the real locks allow",
-        "horizon = DisposeTimeout + 10s + 5s of fake time after the last activity",
+        "horizon = DisposeTimeout + 10s + 5s of fake time after the last activity", "a third of the schemas use state names the machine itself knows (Start, Ready, Heartbeat, Healthcheck, Disposing)",
     ],
     "probes": ["dispose-while-idle", "dispose-during-transition", "dispose-during-final-handler", "dispose-from-handler", "dispose-twice"],
     "level_text": "seeded search over the landing point of Dispose/DisposeForce/parent-context cancel in a running workload: WhenDisposed closed, every channel and state context released, dispose handlers exactly once, no goroutine of the machine left in the bubble, every public method returns promptly with a neutral value afterwards",
@@ -156,7 +156,7 @@ META["C12"] = {
     "components": {"real": MACHINE_REAL + ["pkg/rpc NetworkMachine (clock updates, getters, subscriptions)"], "stub": ["no RPC connection behind the network machine (conn = nil; programs avoid remote mutations' results)"]},
     "assumptions": [
         "the race detector keeps a bounded access history per word: two accesses far apart in one run can be missed, mitigated by many short runs",
-        "Dispose/DisposeForce/Fork/PoolFork are left out of the programs; methods taking the schema write lock run only when handlers do not park",
+        "Dispose/DisposeForce/Fork/PoolFork are left out of the programs; methods taking the schema write lock run only when handlers do not park; the harness handlers are bound three times under known ids so that programs detach and re-bind real bindings while transitions run, and in a third of the runs a final handler panics every k-th call (not during Exception handling) so that the machine repairs its state while the other tasks read it",
         "nil contexts and nil events are C20's domain, not used here",
     ],
     "probes": [],
@@ -176,7 +176,7 @@ META["C20"] = {
         "the JSON handlers of pkg/integrations are not exercised yet",
     ],
     "probes": ["calls-mid-queue", "helper-while-queue-busy"],
-    "level_text": "seeded search over (method, argument shape, lifecycle phase) triples and helper inputs; a recovered panic, a process crash (stack overflow), a call that never returns, a getter that leaks its storage, a set helper that disagrees with set theory or a wait/ask helper that misreports is a violation keyed by method + argument shape",
+    "level_text": "seeded search over (method, argument shape, lifecycle phase) triples and helper inputs; a recovered panic, a process crash (stack overflow), a call that never returns, a getter that leaks its storage, a set helper that disagrees with set theory (lists with repeated names included for S.Equal) or a wait/ask helper that misreports is a violation keyed by method + argument shape",
     "level_note": "trusts reflection over the method set (additions are covered automatically), testing/synctest for blocking detection",
 }
 
@@ -185,7 +185,7 @@ META["C18"] = {
     "rule": "one run = a source and a target machine (no relations, no vetoing handlers) piped with one of Bind / BindMany / BindErr / BindAny / BindReady / BindConnected / flat Add+Remove pipes, the target handed to the binder behind an am.Api proxy whose EvAdd/EvRemove/Set are scheduling points, 1..2 tasks issuing bursts of Add/Remove/Toggle (AddErr for BindErr) on the piped source states, Multi states in a quarter of the runs; non-trivial = every run; distinct = distinct event-log hashes",
     "components": {"real": MACHINE_REAL + ["pkg/states/pipes"], "stub": ["network-machine targets are not exercised here (local targets only)"]},
     "assumptions": [
-        "the target never vetoes (no handlers, no relations), as the statement requires",
+        "the target never vetoes (no relations, no negotiation handlers), as the statement requires; in a third of the runs it is busy with transitions of its own (a slow final handler of a state of its own), so forwarded mutations queue up behind them",
         "joint quiescence: both queues empty, no pipe goroutine parked, 5 s of fake time",
     ],
     "probes": [],
@@ -231,7 +231,7 @@ META["C17"] = {
     "assumptions": [
         "the reference is an independent recording tracer plus a filter written from the field documentation: Active/Inactive = state after the transition, Activated/Deactivated = flipped by that transition, HTime window inclusive",
         "at most one of the Called / Changed lists is set per run (their combination is not specified)",
-        "disk-level faults (torn or short writes, ENOSPC) and kill -9 copies are not injected",
+        "disk-level faults (torn or short writes, ENOSPC) and kill -9 copies are not injected", "in a third of the runs a second task queries the in-memory log while the driver mutates, through a context whose Err() is a scheduling point (it is polled once per scanned record): the answer must list the newest records of some log state between the call and the return",
     ],
     "probes": ["rotation"],
     "level_text": "seeded search over histories and tracking configurations: exactly one record per matching transition in execution order with the machine's time after it, in-memory log bounded exactly by MaxRecords, persistent logs bounded with slack and equal to the reference on what they retain, Sync makes records queryable, queries return precisely the matching records newest first on every backend, Import(Export()) preserves ticks and activity and bumps the machine tick",
@@ -254,7 +254,7 @@ META["C16"] = {
 META["C15"] = {
     "budget": {"quick": 45, "thorough": 900},
     "stall_s": 120,
-    "rule": "one run = a real node Supervisor with drawn pool settings (Min/Max/Warm 0..6, WorkerErrKill 0..3, Heartbeat 5s..1m), its bootstrap machines, rpc Mux/Server/Client stacks and real Workers forked in memory through TestFork/TestKill, on the simulated network (a third of the runs with scheduler-chosen delivery order) and the fake clock; TestFork outcomes per fork (ok / error / slow by 1..12 s / never calls back) and 0..8 timed events (a worker stops, an error is reported for a worker, a connection is cut, extra Heartbeat / CheckPool rounds, work-status mutations on a worker); a tracer on the supervisor machine evaluates the pool oracle after every transition; non-trivial = the supervisor started; distinct = distinct plans",
+    "rule": "one run = a real node Supervisor with drawn pool settings (Min/Max/Warm 0..6, WorkerErrKill 0..3, Heartbeat 5s..1m), its bootstrap machines, rpc Mux/Server/Client stacks and real Workers forked in memory through TestFork/TestKill, on the simulated network (a third of the runs with scheduler-chosen delivery order) and the fake clock; TestFork outcomes per fork (ok / error / slow by 1..12 s / never calls back) and 0..8 timed events (a worker stops, an error is reported for a worker, a connection is cut, extra Heartbeat / CheckPool rounds, work-status mutations on a worker, bursts of external ForkWorker requests); in a third of the runs every mutation of the supervisor machine waits after it is queued, so that several are in the queue before one runs; a tracer on the supervisor machine evaluates the pool oracle after every transition; non-trivial = the supervisor started; distinct = distinct plans",
     "components": {"real": MACHINE_REAL + ["pkg/node (Supervisor, bootstrap, Worker)", "pkg/rpc (Mux, Server, Client, NetworkMachine over rpc2/gob)", "pkg/states/pipes"], "stub": ["worker processes are in-memory Workers started by the TestFork seam and stopped by TestKill (no os/exec)", "the network is verifsim/simnet"]},
     "assumptions": [
         "the supervisor's view of a worker (its NetworkMachine mirror) is what 'ready at that moment' refers to; a worker counts as ready for activation when its mirror has Ready, and as still ready for withdrawal when it additionally has no recent error",
